@@ -27,6 +27,7 @@ def observe(directory):
     finally:
         con.close()
     d1s, d2s, files = set(), set(), {}
+    top, mid = {}, {}
     for name in sorted(os.listdir(directory)):
         p1 = os.path.join(directory, name)
         if os.path.isdir(p1):
@@ -37,7 +38,24 @@ def observe(directory):
                     d2s.add((name, n2))
                     for fn in sorted(os.listdir(p2)):
                         files['%s/%s/%s' % (name, n2, fn)] = os.path.getsize(os.path.join(p2, fn))
-    return rows, sets, sorted(d1s), sorted(d2s), files
+                else:
+                    mid['%s/%s' % (name, n2)] = os.path.getsize(p2)      # a file directly in a first-level directory
+        elif name not in DB_FILES:
+            top[name] = os.path.getsize(p1)                              # a file directly in the cache directory
+    return Obs((rows, sets, sorted(d1s), sorted(d2s), files), top, mid)
+
+
+# the database files themselves: sizes change while check runs; skipped by check, they influence nothing
+DB_FILES = ('cache.db', 'cache.db-wal', 'cache.db-shm', 'cache.db-journal')
+
+
+class Obs(tuple):
+    """(rows, settings, dirs1, dirs2, value-tree files) + .top / .mid: files directly in the cache
+    directory / in a first-level directory, as os.walk sees them"""
+    def __new__(cls, five, top, mid):
+        o = tuple.__new__(cls, five)
+        o.top, o.mid = top, mid
+        return o
 
 
 class Namer:
@@ -65,6 +83,14 @@ def state_line(obs, nm, fix=None):
         (nm.fid(rel), nm.did1(rel.split('/')[0]), nm.did2(tuple(rel.split('/')[:2])), size) for rel, size in files.items())) or '-'))
     f.append('dirs1=' + (','.join(str(x) for x in sorted(nm.did1(n) for n in d1s)) or '-'))
     f.append('dirs2=' + (','.join('%d:%d' % x for x in sorted((nm.did1(a), nm.did2((a, b))) for a, b in d2s)) or '-'))
+    top, mid = getattr(obs, 'top', {}), getattr(obs, 'mid', {})
+    if top or mid or getattr(nm, 'wide', False):
+        # the wider observation of DC.Check (files outside the two-level value tree); once a case uses it, every line of the case does
+        nm.wide = True
+        f.append('top=' + (';'.join('%d:%d' % x for x in sorted((nm.fid(rel), z) for rel, z in top.items())) or '-'))
+        f.append('mid=' + (';'.join('%d:%d:%d' % x for x in sorted((nm.fid(rel), nm.did1(rel.split('/')[0]), z) for rel, z in mid.items())) or '-'))
+        # skipped by check: the files in the cache directory itself whose names start with the database name
+        f.append('skip=' + (','.join(str(i) for i in sorted(nm.fid(rel) for rel in top if rel.startswith('cache.db'))) or '-'))
     return ' '.join(f)
 
 
@@ -157,6 +183,45 @@ def stray_top_probe():
     return bad
 
 
+def dbname_dir_probe():
+    """a cache whose DIRECTORY PATH contains the text 'cache.db' (finding D22, fixed): unknown files are
+    reported and removed there like anywhere else; and a file in the cache directory that is merely NAMED
+    like a database file (cache.db.bak) is left alone"""
+    import shutil
+    import tempfile
+    import diskcache
+    root = os.environ.get('VERIF_SCRATCH') or tempfile.gettempdir()
+    base_dir = tempfile.mkdtemp(prefix='c17db-', dir=root)
+    bad = []
+    try:
+        d = os.path.join(base_dir, 'my-cache.db.dir')
+        c = diskcache.Cache(d, disk_min_file_size=8)
+        c.set('k', b'V' * 40)
+        sub = [dp for dp, dn, fs in os.walk(d) if any(f.endswith('.val') for f in fs)][0]
+        orphan = os.path.join(sub, '0123456789abcdef0123456789ab.val')
+        with open(orphan, 'wb') as f:
+            f.write(b'orphan')
+        bak = os.path.join(d, 'cache.db.bak')
+        with open(bak, 'wb') as f:
+            f.write(b'backup')
+        w1 = [str(w.message).split(':')[0] for w in c.check()]
+        w2 = [str(w.message).split(':')[0] for w in c.check(fix=True)]
+        w3 = [str(w.message).split(':')[0] for w in c.check()]
+        if w1 != ['unknown file'] or w2 != ['unknown file'] or w3 or os.path.exists(orphan):
+            bad.append("a cache directory whose path contains 'cache.db': an orphan value file gives check() %r, check(fix=True) %r, then %r; the file is %s" % (
+                w1, w2, w3, 'still there' if os.path.exists(orphan) else 'gone'))
+        if not os.path.exists(bak):
+            bad.append("check(fix=True) removed cache.db.bak from the cache directory")
+        if c.get('k') != b'V' * 40:
+            bad.append('the undamaged item is no longer readable')
+        c.close()
+    except Exception as e:  # noqa
+        bad.append('dbname-directory probe raised %s: %s' % (type(e).__name__, str(e)[:100]))
+    finally:
+        shutil.rmtree(base_dir, ignore_errors=True)
+    return bad
+
+
 def concurrent_check_probe():
     """check(fix=True) running while ANOTHER client stores a file-backed item (every schedule with one
     preemption of the check, under the deterministic scheduler): the repair must leave undamaged items
@@ -244,7 +309,8 @@ def damage(rng, directory):
                 vals.append(os.path.join(dp, fn))
     vals.sort()
     kinds = ['delete', 'truncate', 'extend', 'add_known_dir', 'add_new_dir', 'empty2', 'empty1', 'empty12', 'count', 'size',
-             'move_known_dir', 'move_new_dir', 'cancel_count', 'cancel_size', 'truncate_zero']
+             'move_known_dir', 'move_new_dir', 'cancel_count', 'cancel_size', 'truncate_zero',
+             'add_top', 'add_mid', 'add_mid_new', 'add_dbnamed']
     for kind in rng.sample(kinds, rng.randint(0, 6)):
         if kind == 'truncate_zero' and vals:
             # emptied, not deleted: the file exists with length 0
@@ -282,6 +348,25 @@ def damage(rng, directory):
             os.makedirs(d, exist_ok=True)
             with open(os.path.join(d, '%028x.val' % rng.getrandbits(100)), 'wb') as f:
                 f.write(b'u' * rng.randint(0, 20))
+        elif kind == 'add_top':
+            # a stray value file directly in the cache directory
+            with open(os.path.join(directory, '%028x.val' % rng.getrandbits(100)), 'wb') as f:
+                f.write(b't' * rng.randint(0, 20))
+        elif kind == 'add_mid' and vals:
+            # a file directly in an existing first-level directory
+            d = os.path.dirname(os.path.dirname(rng.choice(vals)))
+            with open(os.path.join(d, '%028x.val' % rng.getrandbits(100)), 'wb') as f:
+                f.write(b'm' * rng.randint(0, 20))
+        elif kind == 'add_mid_new':
+            # a file alone in a new first-level directory: the repair empties and removes the directory
+            d = os.path.join(directory, '%02x' % rng.randrange(256))
+            os.makedirs(d, exist_ok=True)
+            with open(os.path.join(d, '%028x.val' % rng.getrandbits(100)), 'wb') as f:
+                f.write(b'n' * rng.randint(0, 20))
+        elif kind == 'add_dbnamed':
+            # named like a database file, in the cache directory: skipped by check, must survive
+            with open(os.path.join(directory, 'cache.db.bak'), 'wb') as f:
+                f.write(b'b' * rng.randint(0, 20))
         elif kind == 'empty2':
             os.makedirs(os.path.join(directory, '%02x' % rng.randrange(256), '%02x' % rng.randrange(256)), exist_ok=True)
         elif kind == 'empty1':
@@ -468,7 +553,7 @@ def run(tier, seed, rng, known, replay):
                                'what': verdict or 'model/implementation correspondence broke in check: %s' % (div or {}).get('impl', '')[:120]})
     cc_total = 0
     if not replay:
-        for v_ in stray_top_probe()[:2]:
+        for v_ in (stray_top_probe() + dbname_dir_probe())[:3]:
             violations.append({'replay': {'property': 'C17', 'kind': 'stray-top-probe', 'acceptor': v_}, 'found_input': True, 'what': v_})
         cc_bad, cc_total = concurrent_check_probe()
         cc_new = 0
